@@ -482,7 +482,16 @@ impl MetadataClient for FaultMeta {
     }
     async fn get_chunks_for_shard(&self, shard_id: &str) -> CsResult<Vec<TimeIndexEntry>> {
         let token = format!("Mc{}", self.gate.side_of(shard_id));
-        gated!(self, token, self.inner.get_chunks_for_shard(shard_id))
+        // The trait leaves the order of the answer open (hash-map order in both
+        // backends).  Clean-up ignores delete errors, so which chunk a fault hits
+        // depends on that order: the wrapper fixes it (path order, the model's
+        // order); every order is a legitimate behaviour of the metadata client.
+        gated!(self, token, async {
+            self.inner.get_chunks_for_shard(shard_id).await.map(|mut v| {
+                v.sort_by(|a, b| a.chunk_path.cmp(&b.chunk_path));
+                v
+            })
+        })
     }
     async fn get_shard_metadata(&self, shard_id: &str) -> CsResult<Option<ShardMetadata>> {
         let token = format!("Mh{}", self.gate.side_of(shard_id));
